@@ -157,6 +157,18 @@ def w_format(mon, ctx, rnd, i, n):
             for p in (0, 1, 2, 3):
                 mon.submit('formatSecondsAsTime', [k, p])
         mon.submit('formatSecondsAsTime', [61.5])
+    # residues in the 6th-8th decimal on top of grid values (the two ports print the fraction with a fixed number of
+    # decimals before cutting at the fifth: they must print the same number of them) and full-precision random floats
+    res = [9.6e-6, 9.9e-6, 9.96e-6, 9.4e-6, 9.5e-6, 5.1e-6, 4.9e-6, 1.0e-6, 9.96e-7, 9.4e-7, 5e-8, 9.99e-6, 0.99e-5 + 1e-9]
+    for _ in range(250 if ctx.tier == 'quick' else 6000):
+        g = rnd.choice([rnd.randrange(0, 7200000) / 1000.0, rnd.randrange(0, 720000) / 100.0, float(rnd.randrange(0, 7200)), rnd.randrange(0, 3600000) / 1000.0 + 3599])
+        for r in res:
+            for p in (0, 1, 2, 3):
+                mon.submit('formatSecondsAsTime', [g + r, p])
+    for _ in range(1500 if ctx.tier == 'quick' else 40000):
+        x = rnd.random() * rnd.choice([1, 60, 3600, 360000])
+        for p in (0, 1, 2, 3):
+            mon.submit('formatSecondsAsTime', [x, p])
 
 
 PF = ['0', '00', '7', '07', '59', '60', '99', '1.5', '01.50', '10.123', '0.0', '123', '5.', '3599.99']
